@@ -640,10 +640,11 @@ def enable_post(c):
     perm = c.pre.self._permanent
     adds, cp_add, sets = count(c, 'self.dispatcher.add'), count(c, 'CmdPeriod.add'), count(c, 'the-proxy-set.add')
     others = count(c, 'self.dispatcher.remove') + count(c, 'CmdPeriod.remove') + count(c, 'the-proxy-set.remove')
-    return z3.And(z3.BoolVal(others == 0), z3.BoolVal(adds <= 1 and cp_add <= 1 and sets <= 1),
+    # (what happens with CmdPeriod is not part of "who fires": not demanded)
+    others = count(c, 'self.dispatcher.remove') + count(c, 'the-proxy-set.remove')
+    return z3.And(z3.BoolVal(others == 0), z3.BoolVal(adds <= 1 and sets <= 1),
                   z3.BoolVal(adds == 1) == z3.Not(was),                     # registered with the dispatcher iff it was not
                   z3.BoolVal(sets == 1) == z3.Not(was),
-                  z3.BoolVal(cp_add == 1) == z3.And(z3.Not(was), z3.Not(perm)),
                   c.post.self.enabled)
 
 
@@ -652,9 +653,9 @@ def disable_post(c):
     perm = c.pre.self._permanent
     rem, cp_rem = count(c, 'self.dispatcher.remove'), count(c, 'CmdPeriod.remove')
     others = count(c, 'self.dispatcher.add') + count(c, 'CmdPeriod.add') + count(c, 'the-proxy-set.add')
-    return z3.And(z3.BoolVal(others == 0), z3.BoolVal(rem <= 1 and cp_rem <= 1),
+    others = count(c, 'self.dispatcher.add') + count(c, 'the-proxy-set.add')
+    return z3.And(z3.BoolVal(others == 0), z3.BoolVal(rem <= 1),
                   z3.BoolVal(rem == 1) == was,                              # leaves the dispatcher iff it was enabled
-                  z3.BoolVal(cp_rem == 1) == z3.And(was, z3.Not(perm)),
                   z3.Not(c.post.self.enabled))
 
 
